@@ -1,5 +1,6 @@
 """Lague (Generic UDP Encapsulation variant 0 header codec sub-check: C19, C05, C06, C07, C01) configuration for ./check"""
 CONF = {
+    'coq_sample': 10,   # cases re-evaluated inside Coq by vm_compute against the extracted runner's output
     'interesting': ['truncated-prefix-of-valid', 'first-octet-every-value', 'extensions', 'control-flag', 'error-after-fields-set', 'error-residue',
                     'field-extreme', 'out-of-domain', 'roundtrip', 'dirty-buffer', 'no-fixlengths', 'odd-payload', 'residue-after-error', 'decode-error',
                     'malformed', 'seed'],
